@@ -96,6 +96,12 @@ func c18AssignsField(g *core.FuncInfo, a assignment, fields map[string]bool) boo
 // interface methods and func values are the application's callbacks and are assumed not to touch the
 // analysed type's private state.
 func c18CurrentDef(f *core.FuncInfo, id *ast.Ident, at core.Point) (ast.Expr, bool) {
+	return c18CurrentDefX(f, id, at, nil)
+}
+
+// c18CurrentDefX is c18CurrentDef for a definition whose value depends, beyond the fields it reads
+// itself, on the given fields (a call of a function that reads them).
+func c18CurrentDefX(f *core.FuncInfo, id *ast.Ident, at core.Point, extra map[string]bool) (ast.Expr, bool) {
 	if lhsIdents(f)[id] {
 		return nil, false
 	}
@@ -115,6 +121,9 @@ func c18CurrentDef(f *core.FuncInfo, id *ast.Ident, at core.Point) (ast.Expr, bo
 		return nil, false // defined in an enclosing function: no common CFG
 	}
 	fields := c18FieldsRead(f, d)
+	for k := range extra {
+		fields[k] = true
+	}
 	if len(fields) == 0 {
 		return d, true
 	}
